@@ -1074,5 +1074,23 @@ pub fn run(cfg: &RunCfg, which: Which) -> Report {
             }
         }
     }
+    // ... and market solvency ("the storage market holds at least the sum of all escrow balances"):
+    // theorem BA.Market.market_solvent over the market model; this sub-campaign ties that model to the
+    // real market actor (every op compared with the Lean driver, burnt total and escrow table included)
+    // and checks actor balance = Σ escrow independently after every message
+    if which == Which::C01 && cfg.only_seq.is_none() {
+        let sub = crate::props::market::run_n(cfg, "c06", Some(if cfg.thorough() { 150 } else { 16 }));
+        rep.ops += sub.ops;
+        rep.ops_ok += sub.ops_ok;
+        rep.notes.push(format!("market sub-campaign: {} sequences, {} ops, {} validated against the Lean market model", sub.sequences, sub.ops, sub.traces_validated));
+        for (k, v) in sub.op_hist.iter() { *rep.op_hist.entry(format!("market:{}", k)).or_insert(0) += v; }
+        for (k, v) in sub.branch_hist.iter() { *rep.branch_hist.entry(format!("market:{}", k)).or_insert(0) += v; }
+        for v in sub.violations.into_iter() {
+            if ["market-balance-ne-escrow-sum", "locked-exceeds-escrow", "negative-balance", "burn-ne-slashed-collateral", "panic", "failed-message-changed-state"].contains(&v.kind.as_str()) {
+                rep.violations.push(crate::report::Violation { kind: format!("market-{}", v.kind), detail: v.detail, replay: v.replay });
+            }
+        }
+        for d in sub.disagreements.into_iter() { rep.disagreements.push(d); }
+    }
     rep
 }
